@@ -62,8 +62,21 @@ class PubCheck(EventListener):
             self.sink.append((f"published|{self.kind}|{nm}", f"{self.kind}: published {nm} = {event.content!r} but {meth}{args} = {now!r} at that moment"))
 
 
+class OneShot(EventListener):
+    """a listener that unsubscribes itself the first time it is notified (subscribed BEFORE the statistics)"""
+
+    def __init__(self, sim, et):
+        self.sim, self.et = sim, et
+        sim.add_listener(et, self)
+
+    def notify(self, event):
+        self.sim.remove_listener(self.et, self)
+
+
 class PubModel(ds.StatModel):
     def construct_model(self):
+        from pydsol.core.interfaces import ReplicationInterface
+        self.oneshots = [OneShot(self.simulator, ReplicationInterface.WARMUP_EVENT), OneShot(self.simulator, ReplicationInterface.END_REPLICATION_EVENT)]
         super().construct_model()
         self.pub_problems = getattr(self, "pub_problems", [])
         self.pubs = [PubCheck(s, k, self.pub_problems) for k, s in self.stats.items()]
